@@ -209,6 +209,48 @@ def vi_post_cases(rnd, n):
     return out
 
 
+def vi_cut_cases(rnd, n):
+    """SIR_VariableInfection whose susceptible-infected edges are all CUT (removeEdge) by a posted event, under Gillespie
+    dynamics with low rates: the cut tends to fall between the selection of an infection through one edge and its firing;
+    the edge has left the SI locus (and the network), its end points keep their compartments.  D only."""
+    out = []
+    for i in range(n):
+        c = gen_case(rnd, model='SIR_VariableInfection', dynamics='stochastic', kinds=['star', 'path', 'complete', 'random', 'cycle'])
+        m = len(c['graph']['edges'])
+        c['vi_override'] = {'run': [rnd.choice([0.125, 0.25, 0.5]) for _ in range(m)], 'pre': [rnd.choice([0.25, 1.0]) for _ in range(m)]}
+        c['prerun'] = False
+        c.pop('vi_post', None)
+        c.pop('abort_first', None)
+        c['vi_cut'] = rnd.choice([0.0625, 0.125, 0.25, 0.5])
+        c['pv']['pRemove'] = rnd.choice([0.0, 0.125])
+        c['pv']['pSeed'] = rnd.choice([0.25, 0.5])
+        c['seq'] = False
+        c['second'] = None
+        out.append(c)
+    return out
+
+
+def vi_sync_rerun_cases(rnd, n):
+    """SIR_VariableInfection run twice on the same objects under synchronous dynamics: the earlier run, with low
+    infectivities, is stopped by its maximum time with susceptible-infected edges left; in the observed run every
+    infectivity is 1, so that several selected edges compete for one susceptible node in one timestep"""
+    out = []
+    for i in range(n):
+        c = gen_case(rnd, model='SIR_VariableInfection', dynamics='synchronous', kinds=['complete', 'star', 'random', 'tri_tail'])
+        m = len(c['graph']['edges'])
+        c['vi_override'] = {'run': [1.0] * m, 'pre': [rnd.choice([0.0, 0.0, 0.125]) for _ in range(m)]}
+        c['prerun'] = True
+        c.pop('vi_post', None)
+        c.pop('abort_first', None)
+        c['pv']['pRemove'] = 0.0
+        c['pv']['pSeed'] = rnd.choice([0.25, 0.5])
+        c['maxtime'] = rnd.choice([2.0, 3.0])
+        c['seq'] = rnd.random() < 0.2
+        c['second'] = None
+        out.append(c)
+    return out
+
+
 def fr_rerun_cases(rnd, n):
     """the fixed-recovery models (whose build() does not go through Process.build()) run twice on the same objects, the
     earlier run cut off by its time limit with infections still going on"""
@@ -264,6 +306,18 @@ def run_case(case):
                 for n in list(net.nodes()):
                     if net.nodes[n][self.COMPARTMENT] == self.INFECTED:
                         self.postEvent(T_post, n, self.remove, name=self.REMOVED)
+    if model == 'SIR_VariableInfection' and case.get('vi_cut') is not None:
+        T_cut = case['vi_cut']
+
+        class cls(ep.SIR_VariableInfection):
+            def setUp(self, params):
+                super().setUp(params)
+                self.postEvent(T_cut, None, self.cut, name='cut')
+
+            def cut(self, t, e):
+                for (n, m) in list(self.locus(ep.SIR.SI)):
+                    if self.network().has_edge(n, m):
+                        self.removeEdge(n, m)
     if case.get('reseed') and model in ('SIR', 'SEIR', 'SIS', 'SIRS', 'SIR_FixedRecovery', 'SIS_FixedRecovery', 'Opinion'):
         # the documented hook overridden: default seeding, then chosen index cases (neighbours among them) are placed again
         base_cls, picks = cls, list(case['reseed'])
@@ -902,6 +956,14 @@ def direct_c03(case, obs):
         if obs.get('steps') != len(steps):
             v.append({'signature': 'timesteps-with-events-mismatch:shipped', 'detail': {'reported': obs.get('steps'), 'steps_with_events': sorted(steps)[:12]}})
     taps = obs['snaps'][1:]
+    # a repeating event's handler is given the time of the event that carries it: the Monitor's recorded observation
+    # times are exactly the times at which its events were tapped
+    if obs.get('monitor') and not case.get('second') and obs.get('time') is not None:
+        mt = [s['t'] for s in taps if s.get('pi') == 0 and s.get('posted')]
+        if list(obs['monitor']['times']) != mt:
+            k = next((i for i, (a, b) in enumerate(zip(obs['monitor']['times'], mt)) if a != b), min(len(mt), len(obs['monitor']['times'])))
+            v.append({'signature': 'observation-time-differs-from-its-event-time:shipped',
+                      'detail': {'index': k, 'recorded': list(obs['monitor']['times'])[k:k + 3], 'event_times': mt[k:k + 3]}})
     last = 0.0
     for s in taps:
         if s['t'] < last:
